@@ -82,7 +82,13 @@ func TestC04(t *testing.T) {
 			r.Obs("commands_executed", int64(len(probe.Started)))
 			r.ObsDistinct("schedule_signatures", sum.Signature)
 			wit := map[string]any{"state": state, "threads": threads, "gomaxprocs": maxprocs, "delay": fmt.Sprintf("%g:%d", prob, maxus), "round": k, "edit": edit, "stderr": lib.Tail(res.Stderr, 1500)}
-			if res.Exit != 0 {
+			// Exit 66 is the race detector's own exit status (halt_on_error=0: the build ran to the end and
+			// the reports are in the race log, which is classified below); it is not a build failure.
+			raceExit := res.Exit == 66 && len(lib.ParseRaceLogs(filepath.Join(sb.Work, "race"), anchors)) > 0
+			if raceExit {
+				r.Obs("invocations_with_race_exit", 1)
+			}
+			if res.Exit != 0 && !raceExit {
 				key := "build-fails"
 				if strings.Contains(res.Stderr, "panic:") || strings.Contains(res.Stderr, "fatal error:") {
 					key = "runtime-panic"
@@ -119,6 +125,7 @@ func TestC04(t *testing.T) {
 			} else {
 				r.Obs("race_reports_elsewhere", 1)
 				r.ObsDistinct("races_elsewhere", rep.Key)
+				r.NoteOnce("race_elsewhere:"+rep.Key, rep.Text)
 			}
 		}
 		if _, err := os.Stat(filepath.Join(sb.Work, "trace0")); err != nil {
